@@ -1,11 +1,17 @@
 package c08
 
 import (
+	"context"
 	"encoding/xml"
+	"errors"
 	"fmt"
+	"io"
 	"strings"
+	"time"
 
+	"mellium.im/xmpp"
 	"mellium.im/xmpp/jid"
+	"mellium.im/xmpp/stream"
 
 	"verifharness/common"
 )
@@ -290,6 +296,55 @@ func (c *ctx) check(ns string, body []byte, progs []Prog, class string) {
 	// written except the default replies of C07 (not judged here)
 }
 
+// header runs a real negotiation (xmpp.NewNegotiator with the default configuration) against
+// a peer whose first bytes are `in` and compares the error with the model: a stream error in
+// the place of the stream header must be returned as that error, without a panic.
+func (c *ctx) header(in string, receive bool) {
+	r := c.r
+	toks, _ := common.Tokenize([]byte(in))
+	line := "header " + common.EncToks(toks)
+	lines := []string{r.Prop + " " + line, "#in " + common.HexS(in), "#receive " + common.B(receive)}
+	var err error
+	neg := xmpp.NewNegotiator(func(*xmpp.Session, *xmpp.StreamConfig) xmpp.StreamConfig { return xmpp.StreamConfig{} })
+	p := ""
+	done := common.WithTimeout(10*time.Second, func() {
+		p = common.Recover(func() {
+			rw := rwPair{strings.NewReader(in), io.Discard}
+			if receive {
+				_, err = xmpp.ReceiveSession(context.Background(), rw, 0, neg)
+			} else {
+				_, err = xmpp.NewSession(context.Background(), RemoteJID, LocalJID, rw, 0, neg)
+			}
+		})
+	})
+	switch {
+	case !done:
+		r.Line(line, "STALL")
+		r.Fail("terminates", "header-stall", lines, "negotiation did not return")
+		return
+	case p != "":
+		r.Line(line, "PANIC")
+		r.Fail("stream-level-error-returned", "header-panic", lines, p)
+		return
+	}
+	obs := "other"
+	var se stream.Error
+	if errors.As(err, &se) {
+		obs = "se:" + se.Err
+	}
+	r.Line(line, obs)
+	r.Case(line, obs != "other", "header/"+strings.SplitN(obs, ":", 2)[0])
+	if len(toks) > 0 {
+		first := toks[0]
+		if pi, ok := first.(xml.ProcInst); ok && pi.Target == "xml" && len(toks) > 1 {
+			first = toks[1]
+		}
+		if st, ok := first.(xml.StartElement); ok && st.Name.Space == NSStream && st.Name.Local == "error" && strings.Contains(in, "</stream:error>") && obs == "other" {
+			r.Fail("stream-level-error-returned", "header-not-returned", lines, fmt.Sprintf("negotiation returned %v", err))
+		}
+	}
+}
+
 // ---- generators ----------------------------------------------------------------
 
 // item alphabet of the small-scope enumeration: byte fragments at top level
@@ -452,6 +507,23 @@ func Run(r *common.Run) error {
 		c.check(ns, []byte(`<iq type="get" id="1"/><message id="after"/></stream:stream>`), []Prog{{Ret: "eof"}}, "corpus")
 	}
 
+	// a stream error (or something else) where the stream header is expected
+	for _, receive := range []bool{true, false} {
+		for _, decl := range []string{"", `<?xml version="1.0"?>`} {
+			for _, cond := range []string{"host-gone", "not-authorized", "system-shutdown", "see-other-host"} {
+				se := `<stream:error xmlns:stream='` + NSStream + `'><` + cond + ` xmlns='urn:ietf:params:xml:ns:xmpp-streams'/></stream:error>`
+				c.header(decl+se, receive)
+				c.header(decl+se[:len(se)-9], receive)
+				c.header(decl+`<stream:error xmlns:stream='`+NSStream+`'><`+cond+` xmlns='urn:ietf:params:xml:ns:xmpp-streams'/><text xmlns='urn:ietf:params:xml:ns:xmpp-streams'>bye</text></stream:error>`, receive)
+			}
+			c.header(decl+`<stream:error xmlns:stream='`+NSStream+`'/>`, receive)
+			c.header(decl+`<message xmlns='jabber:client'/>`, receive)
+			c.header(decl+`<stream:features xmlns:stream='`+NSStream+`'/>`, receive)
+			c.header(decl+`junk`, receive)
+			c.header(decl, receive)
+		}
+	}
+
 	// exhaustive: every sequence of up to L items of the alphabet, closed or not, with a
 	// few consumption patterns
 	L := r.Pick(2, 3)
@@ -496,6 +568,11 @@ func Run(r *common.Run) error {
 func (c *ctx) replay(lines []string) error {
 	for i, l := range lines {
 		f := strings.Fields(l)
+		if len(f) == 2 && f[0] == "#in" && i+1 < len(lines) {
+			in, _ := common.UnHex(f[1])
+			c.header(string(in), strings.HasSuffix(lines[i+1], " 1"))
+			continue
+		}
 		if len(f) < 2 || f[0] != "#body" || i == 0 {
 			continue
 		}
